@@ -19,8 +19,10 @@
      extract  open_mla_file, THEN create_dir / canonicalize, list_files, create_file*
    NOT modelled: clap, reading key files (a key that does not parse is a panic before anything
    else), stderr, humansize's rendering of sizes (`list -v` rows carry the number), the glob forms,
-   `-` (stdin) in create, the directory walk (the flattened file list is the input), creation of a
-   missing output directory by `extract` (Path.v starts at the canonical output directory).
+   `-` (stdin) in create, the directory walk (the flattened file list is the input).  The commands
+   cmd_extract_* below start at the canonical output directory; the prologue of `extract` (create_dir of a
+   missing output directory, canonicalize) is PathDir.extract_prologue and the commands behind it are in
+   CliExtractOut.v.
    Definitions only; proofs in CliProofs.v. *)
 From MLA Require Import Base Stream Blocks Writer Reader RoundTripWriter RoundTripReader CompLayer EncLayer Format Ecies Archive Path Tar.
 From Coq Require Import Permutation.
@@ -37,6 +39,11 @@ Fixpoint bytes_leb (a b : bytes) : bool :=
 Fixpoint ins_name (x : bytes) (l : list bytes) : list bytes :=
   match l with [] => [x] | h :: t => if bytes_leb x h then x :: l else h :: ins_name x t end.
 Definition sort_names (l : list bytes) : list bytes := fold_right ins_name [] l.
+
+(* the keys of `export` in the whole-archive form of `extract`: the pre-pass inserts a FileWriter for a name
+   only when create_file returned Ok(Some(..)) (Path.create_all: Created), in the order of the sorted names *)
+Definition accepted_names (out : path) (names : list bytes) (f : fs) : list bytes :=
+  map fst (snd (fst (create_all out names f))).
 
 (* the content stored under a name (names are distinct in an archive) *)
 Definition lookup_file (files : list (bytes * bytes)) (n : bytes) : bytes :=
@@ -154,7 +161,10 @@ Section Cli.
 
     (* ---------- cat (names in argument order; clap passes exactly one) ---------- *)
     (* get_file Err / None: a message on stderr and ON TO THE NEXT NAME; a failing copy ends the
-       command with `?`.  The exit status is 0 whatever was or was not found. *)
+       command with `?`.  The exit status is 0 whatever was or was not found.  A PANIC below get_file (a
+       layer's seek on hostile bytes) unwinds through the command — cat, convert and extract end there with a
+       non-zero status (work package fixcli; to_tar_loop below has no status to report it with: the tarball
+       is what had been written, the trailer included — Builder's Drop runs while unwinding). *)
     Fixpoint cat_loop (r : rstate S) (names : list bytes) (acc : bytes) : bytes * bool :=
       match names with
       | [] => (acc, true)
@@ -165,6 +175,7 @@ Section Cli.
           | (bs', d, Ok _) => cat_loop (after_copy r1 bs') rest (acc ++ d)
           | (_, d, _) => (acc ++ d, false)
           end
+        | (_, Crash _) => (acc, false)         (* a panic below get_file unwinds: exit 101 *)
         | (r1, _) => cat_loop r1 rest acc
         end
       end.
@@ -207,6 +218,7 @@ Section Cli.
           | (_, _, Err e) => Err e
           | (_, _, Crash c) => Crash c
           end
+        | (_, Crash c) => Crash c               (* a panic below get_file unwinds *)
         | (r1, _) => convert_ops r1 rest acc
         end
       end.
@@ -224,6 +236,7 @@ Section Cli.
           | (_, _, Err e) => Err e
           | (_, _, Crash c) => Crash c
           end
+        | (_, Crash c) => Crash c               (* a panic below get_file unwinds *)
         | (r1, _) => members_of r1 rest acc
         end
       end.
@@ -282,7 +295,9 @@ Section Cli.
     match cli_open a privs with
     | Ok (existT _ p r) =>
       let names := sort_names (list_files (stack_of a p) r) in
-      match linear_extract FNMAX TS TC TA TE (stack_of a p) lfuel r names with
+      (* `export` holds a FileWriter only for the names create_file ACCEPTED in the pre-pass: those are the
+         keys linear_extract sees (a FileStart of any other name does not bind its id) *)
+      match linear_extract FNMAX TS TC TA TE (stack_of a p) lfuel r (accepted_names out names f) with
       | Ok blocks => extract_linear out names blocks f
       | _ =>
         (* the files are created first; the failing walk then ends the command *)
